@@ -25,7 +25,7 @@ REQUIRED = {'mon:transform.checked': 200, 'mon:apply_transformers.checked': 100,
 
 
 def shards(tier, seed):
-    per = 300 if tier == 'quick' else 2600
+    per = 300 if tier == 'quick' else 10000
     budget = 45 if tier == 'quick' else 540
     return [{'kind': 'random', 'count': per, 'budget_s': budget, 'max_g': 12 if tier == 'quick' else 30,
              'max_in': 5 if tier == 'quick' else 6} for _ in range(16)]
